@@ -92,10 +92,8 @@ func c15Run(front string, keys []kit.KeySpec, cn C15Conn, cacheOn bool, idx int)
 	case "bad_address":
 		addr = append([]byte{9}, addr[1:]...)
 	case "connect_fail":
-		l, _ := net.Listen("tcp", "127.0.0.1:0")
-		dead := l.Addr().String()
-		l.Close()
-		addr = kit.SocksAddrFor(dead, false)
+		// a port nobody listens on (a just-released ephemeral port could be taken by a concurrent connection's target)
+		addr = kit.SocksAddrFor("127.0.0.1:1", false)
 	}
 	var wire []byte
 	if cn.Kind == "cipher" {
@@ -273,7 +271,7 @@ func c15Run(front string, keys []kit.KeySpec, cn C15Conn, cacheOn bool, idx int)
 			cl.CloseWrite()
 			<-tDone
 			o.tgtRecv = tRecv
-			o.statuses = []string{"ERR_RELAY_TARGET", "ERR_RELAY_CLIENT"}
+			o.statuses = []string{"ERR_RELAY_TARGET", "ERR_RELAY_CLIENT", "ERR_CONNECT"} // a reset right after accept can still fail the proxy's connect()
 		case "corrupt_chunk":
 			m, _ := tc.Write(down)
 			o.tgtSent = int64(m)
@@ -387,8 +385,14 @@ func runC15(c C15Case, info *kit.Info) *kit.Finding {
 			if o.probe && k == 0 && got[0] != wire[0] {
 				return kit.Violation("tcpmetrics:counter", "connection %d (%s): ClientProxy reported %d, the client sent %d", i, cn.Kind, got[0], wire[0])
 			}
-			if (k == 0 || k == 3) && got[k] > wire[k] || got[k] < 0 {
-				return kit.Violation("tcpmetrics:counter-exceeds-wire", "connection %d (%s): %s reported %d exceeds the %d bytes on the wire", i, cn.Kind, names[k], got[k], wire[k])
+			// Upper bounds from the sender's side of each hop (a peer that reset may not have read what was sent to it):
+			// client wrote clientSent; the client's plaintext is cn.Up bytes; the target wrote tgtSent; the client read clientRecv.
+			bound := [4]int64{o.clientSent, int64(cn.Up), o.tgtSent, o.clientRecv}[k]
+			if k == 3 && cn.Kind == "client_reset" {
+				continue // the proxy may have sent bytes the resetting client never read
+			}
+			if got[k] > bound || got[k] < 0 {
+				return kit.Violation("tcpmetrics:counter-exceeds-wire", "connection %d (%s): %s reported %d exceeds the %d bytes sent on that hop (all: reported %v)", i, cn.Kind, names[k], got[k], bound, got)
 			}
 		}
 		if cn.Kind != "ok" && cn.Kind != "cipher" || cn.Up+cn.Down > 16384 {
@@ -454,6 +458,6 @@ func runC15(c C15Case, info *kit.Info) *kit.Finding {
 }
 
 func TestC15_Wire(t *testing.T) {
-	p := kit.Prop[C15Case]{ID: "C15", Name: "Wire", Quick: 240, Thorough: 20000, Gen: genC15(24), Run: runC15}
+	p := kit.Prop[C15Case]{ID: "C15", Name: "Wire", Quick: 1600, Thorough: 60000, Gen: genC15(24), Run: runC15}
 	p.Execute(t)
 }
